@@ -231,10 +231,15 @@ async def stream(
 ) -> AsyncIterator[Any]:
     # This dirty trickery is for cases when the server thinks too slowly before
     # sending the headers, but the stopper is already set during the initial wait.
+    # NB: the callbacks of futures are called outside of tasks, so the task is remembered here.
+    task = asyncio.current_task()
+    cancelled_by_stopper = False
+
     def request_cancel_callback(_: aiotasks.Future) -> None:
-        task = asyncio.current_task()
-        assert task is not None  # for type-checkers; this is `async def`, so always in a task.
-        task.cancel()
+        nonlocal cancelled_by_stopper
+        if task is not None:  # for type-checkers; this is `async def`, so always in a task.
+            cancelled_by_stopper = True
+            task.cancel()
 
     if stopper is not None and not stopper.done():
         stopper.add_done_callback(request_cancel_callback)
@@ -249,10 +254,15 @@ async def stream(
             logger=logger,
         )
     except asyncio.CancelledError:
-        if stopper is not None and stopper.done():
+        # Swallow only the cancellation made by the stopper above, and only if nobody else has
+        # cancelled this task at the same time (e.g. the operator is exiting): otherwise,
+        # that other cancellation would be lost, and the task would go on as if never cancelled.
+        if cancelled_by_stopper and task is not None and getattr(task, 'cancelling', lambda: 1)() <= 1:
+            if hasattr(task, 'uncancel'):  # Python 3.11+
+                task.uncancel()
             return
         else:
-            raise  # triggered not by the stopper, escalate
+            raise  # triggered not (only) by the stopper, escalate
     finally:
         if stopper is not None:
             stopper.remove_done_callback(request_cancel_callback)
